@@ -5,7 +5,7 @@
            lists: [steps, whole = clean_text(x, steps), seq = steps applied one after
            another, werr / serr = "" or exception name]
    "html": doc (tokens), txt (code points per text id), out = html(rendered doc), raised *)
-EXTENDS Clean, Json, IOUtils
+EXTENDS Clean, Json, IOUtils, Hits
 Traces == JsonDeserialize(IOEnv.TRACE_FILE)
 NT == Len(Traces)
 VARIABLES tid, bucket
@@ -24,7 +24,9 @@ RECURSIVE JoinSp(_, _, _)
 JoinSp(txt, ids, x) == IF x > Len(ids) THEN <<>>
                        ELSE (IF x > 1 THEN <<32>> ELSE <<>>) \o txt[ids[x]] \o JoinSp(txt, ids, x + 1)
 
-Clauses == {"C20.idempotent", "C20.norun", "C20.others", "C20.compose", "C20.valueerror", "C20.html"}
+ClauseSeq == <<"C20.idempotent", "C20.norun", "C20.others", "C20.compose", "C20.valueerror", "C20.html">>
+Clauses == {ClauseSeq[ci] : ci \in DOMAIN ClauseSeq}
+ASSUME PrintT(<<"CLAUSES", ToJson(ClauseSeq)>>)
 Holds(cl, t) ==
   LET tr == T(t) IN
   IF tr.kind = "text" THEN
@@ -48,7 +50,18 @@ Holds(cl, t) ==
 TInit == tid = 0 /\ bucket \in 0..(NB - 1)
 TNext == tid = 0 /\ (\E t \in {x \in 1..NT : x % NB = bucket} : tid' = t) /\ UNCHANGED bucket
 TSpec == TInit /\ [][TNext]_<<tid, bucket>>
-Judge == tid # 0 => \A cl \in Clauses : Holds(cl, tid) \/ PrintT(<<"FAIL", tid, cl>>)
+Exercised(cl, t) ==
+  LET tr == T(t) IN
+  IF tr.kind = "text" THEN
+    CASE cl \in {"C20.idempotent", "C20.norun", "C20.others"} ->      \* some cleaner changes the text
+              \E s \in StepNames : F(tr, s).f1 # tr.x
+      [] cl = "C20.compose" -> \E y \in DOMAIN tr.lists : tr.lists[y].werr = "" /\ tr.lists[y].serr = "" /\ Len(tr.lists[y].steps) >= 2
+                                                            /\ tr.lists[y].whole # tr.x
+      [] cl = "C20.valueerror" -> \E y \in DOMAIN tr.lists : \E z \in DOMAIN tr.lists[y].steps : tr.lists[y].steps[z] \notin StepNames
+      [] OTHER -> FALSE
+  ELSE cl = "C20.html" /\ Len(tr.doc) >= 2 /\ Len(Visible(tr.doc)) < Cardinality(DOMAIN tr.txt)   \* some text node is invisible
+Judge == tid # 0 => (/\ \A cl \in Clauses : Holds(cl, tid) \/ PrintT(<<"FAIL", tid, cl>>)
+   /\ PrintT(<<"HIT", tid, Mask([ci \in DOMAIN ClauseSeq |-> Exercised(ClauseSeq[ci], tid)])>>))
 (* conformance: the class image of each real cleaner output is the model's Apply *)
 Conform == (tid # 0 /\ T(tid).kind = "text") =>
    LET tr == T(tid) IN
